@@ -1,6 +1,7 @@
 //! S2 — actor systems step by step.
 
 pub mod identity;
+pub mod lockstep;
 pub mod reference;
 pub mod script;
 pub mod walk;
@@ -171,7 +172,17 @@ pub fn execute(focus: &str, sc: &WalkScenario) -> (Vec<Violation>, Counters, u64
     (v, c, out.signature, hashes)
 }
 
+fn adapter_report(out: lockstep::LockOutcome) -> RunReport {
+    RunReport { violations: out.violations, counters: out.counters, signature: out.signature, nontrivial: out.steps >= 2, sim_time_ns: 0, steps: out.steps, case_hashes: vec![out.signature] }
+}
+
 pub fn run_case(focus: &str, seed: u64) -> (RunReport, Value) {
+    if focus == "C15" {
+        let sc = lockstep::gen_adapter(seed);
+        let mut rep = adapter_report(lockstep::run_adapter(&sc));
+        rep.counters.inc(&format!("adapter_{}", sc.adapter));
+        return (rep, serde_json::to_value(&sc).unwrap());
+    }
     let sc = gen_walk(focus, seed);
     let (v, c, sig, hashes) = execute(focus, &sc);
     let steps = c.get("walk_steps");
@@ -188,6 +199,10 @@ pub fn run_case(focus: &str, seed: u64) -> (RunReport, Value) {
 }
 
 pub fn replay(focus: &str, scenario: &Value) -> Result<RunReport, String> {
+    if focus == "C15" {
+        let sc: lockstep::AdapterScenario = serde_json::from_value(scenario.clone()).map_err(|e| e.to_string())?;
+        return Ok(adapter_report(lockstep::run_adapter(&sc)));
+    }
     let sc: WalkScenario = serde_json::from_value(scenario.clone()).map_err(|e| e.to_string())?;
     let (v, c, sig, hashes) = execute(focus, &sc);
     let steps = c.get("walk_steps");
@@ -195,6 +210,9 @@ pub fn replay(focus: &str, scenario: &Value) -> Result<RunReport, String> {
 }
 
 pub fn summary(scenario: &Value) -> Value {
+    if scenario.get("adapter").is_some() {
+        return serde_json::json!({"adapter": scenario["adapter"], "actors": scenario["sys"]["tables"].as_array().map(|a| a.len()), "network": scenario["sys"]["net"], "lossy": scenario["sys"]["lossy"], "max_crashes": scenario["sys"]["max_crashes"], "positions": scenario["positions"], "steps": scenario["steps"], "script": scenario["script"]});
+    }
     let sc: WalkScenario = match serde_json::from_value(scenario.clone()) {
         Ok(s) => s,
         Err(_) => return Value::Null,
@@ -209,6 +227,41 @@ pub fn summary(scenario: &Value) -> Value {
 }
 
 pub fn shrink_candidates(scenario: &Value) -> Vec<Value> {
+    if scenario.get("adapter").is_some() {
+        let Ok(sc) = serde_json::from_value::<lockstep::AdapterScenario>(scenario.clone()) else { return vec![] };
+        let mut out = Vec::new();
+        if sc.steps > 1 {
+            let mut s = sc.clone();
+            s.steps = sc.steps / 2;
+            out.push(s);
+            let mut s = sc.clone();
+            s.steps = sc.steps - 1;
+            out.push(s);
+        }
+        for a in 0..sc.sys.tables.len() {
+            for r in 0..sc.sys.tables[a].msg.len() {
+                let mut s = sc.clone();
+                s.sys.tables[a].msg.remove(r);
+                out.push(s);
+            }
+            for r in 0..sc.sys.tables[a].timer.len() {
+                let mut s = sc.clone();
+                s.sys.tables[a].timer.remove(r);
+                out.push(s);
+            }
+            for r in 0..sc.sys.tables[a].random.len() {
+                let mut s = sc.clone();
+                s.sys.tables[a].random.remove(r);
+                out.push(s);
+            }
+        }
+        if sc.sys.max_crashes > 0 {
+            let mut s = sc.clone();
+            s.sys.max_crashes = 0;
+            out.push(s);
+        }
+        return out.into_iter().map(|s| serde_json::to_value(&s).unwrap()).collect();
+    }
     let sc: WalkScenario = match serde_json::from_value(scenario.clone()) {
         Ok(s) => s,
         Err(_) => return vec![],
